@@ -4,9 +4,13 @@ M: Pairing.tla, UnionInit (plan + two project policies, one requirement each), U
    the code iterates a Go map is an explicit choice; invariant OrderIndependent (what SetupScores hands to
    PickProviders is the same for every choice).  A violation here is only a candidate: it says the order of
    lavaslices.UnionByFunc leaks into AddonFilter.InitFilter's first-writer-wins sub filters.  With
-   UnionMode = "firstseen" (the repaired UnionByFunc) the invariant holds (thorough tier).
+   UnionMode = "firstseen" (the repaired UnionByFunc) the invariant holds.  Likewise SubInit with SubOrder = "any": the
+   order in which AddonFilter.InitFilter returns its sub mix filters (a Go map, keys sorted by the code) decides which
+   pairing slot each sub filter restricts; with "sorted" the invariant holds.
 G: TLC emits configurations (GenInit, Mode = "genunion": every second one has two project policies whose
-   requirements share add-on "a" but differ in API interface, >= 4 slots).
+   requirements share add-on "a" but differ in API interface, >= 4 slots; the others have one mixed requirement with
+   2-3 sub-filter keys (add-on + extensions e,f), providers that differ in which of them they support, all eligible,
+   3-4 slots for 5 providers).
 R: harness/t/pairing replays each configuration in R = 3 fresh processes; in each process GetPairing, VerifyPairing and
    EffectivePolicy are called K times on the same context (throw-away branches), one relay payment per provider is
    submitted per epoch (accepted iff the code finds the provider in the pairing) and every KV store is hashed after
@@ -77,10 +81,9 @@ def _judge(ctx, cfgs, tag, K):
     L = lib()
     tpath, rows = _runs(ctx, cfgs, tag, K)
     bads = []
-    for cfgfile, t in (("Trace_Pairing_c01.cfg", tag + "_det"), ("Trace_Pairing_c01e.cfg", tag + "_deteff")):
-        bad = L.validate(ctx, tpath, cfgfile, t)
-        if bad:
-            bads.append(bad)
+    bad = L.validate(ctx, tpath, "Trace_Pairing_c01.cfg", tag + "_det")
+    if bad:
+        bads.append(bad)
     return rows, bads
 
 
@@ -112,22 +115,35 @@ def run(ctx):
     if skip_mc:
         ctx.notes.append("VERIF_SKIP_MC set: exhaustive TLC stage skipped (not a verdict-grade run)")
     else:
-        mu = vlib.tlc_mc(ctx, "Pairing", "Pairing_umc.cfg", timeout=1800)
-        if mu["violated"] not in (None, "invariant:OrderIndependent"):
-            raise vlib.Infra("design-level spec violates %s (see %s)" % (mu["violated"], mu["outfile"]))
-        ctx.notes.append("design level (UnionByFunc may return any order): OrderIndependent %s" % (
-            "is violated by an initial state = the order leaks into the slot filters (candidate only; the replay below decides)"
-            if mu["violated"] else "holds"))
-        if not mu["violated"]:
-            ctx.add_mc("Pairing UnionInit, UnionMode=any (design level, OrderIndependent)", mu)
-        mf = vlib.tlc_mc(ctx, "Pairing", "Pairing_umcfs.cfg", timeout=1800)
-        if mf["violated"]:
-            raise vlib.Infra("design-level spec with first-seen union order violates %s (see %s)" % (mf["violated"], mf["outfile"]))
-        ctx.add_mc("Pairing UnionInit, UnionMode=firstseen (order of the repaired UnionByFunc): OrderIndependent + C02 invariants", mf)
+        # faithful models (the code as it is now: first-seen union order, sorted sub-filter keys) must be order independent
+        for name, cfg in (("UnionInit, first-seen union order", "Pairing_umcfs.cfg"), ("SubInit, sorted sub-filter keys", "Pairing_smcs.cfg")):
+            mf = vlib.tlc_mc(ctx, "Pairing", cfg, timeout=1800, tag="mc_" + cfg[:-4])
+            if mf["violated"]:
+                raise vlib.Infra("design-level spec (%s) violates %s (see %s)" % (name, mf["violated"], mf["outfile"]))
+            ctx.add_mc("Pairing %s: OrderIndependent + C02 invariants" % name, mf)
+        if not ctx.quick:
+            # hazard models: why those two orders must be deterministic (candidates only, never a verdict)
+            for name, cfg in (("UnionByFunc in any order", "Pairing_umc.cfg"), ("InitFilter sub filters in any order", "Pairing_smc.cfg")):
+                mu = vlib.tlc_mc(ctx, "Pairing", cfg, timeout=1800, tag="mc_" + cfg[:-4])
+                if mu["violated"] not in (None, "invariant:OrderIndependent"):
+                    raise vlib.Infra("design-level spec violates %s (see %s)" % (mu["violated"], mu["outfile"]))
+                ctx.notes.append("design level, %s: OrderIndependent %s" % (name, "is violated (the order leaks into the slot filters)"
+                                                                            if mu["violated"] else "holds"))
     cfgs = L.gen_configs(ctx, ctx.pick("Pairing_genu.cfg", "Pairing_genut.cfg"), "genu")
     rows, bads = _judge(ctx, cfgs, "sim", K)
     qs = [r for r in rows if r["ev"] == "q"]
     union_q = [r for r in qs if sum(1 for p in r["pol"] if p["on"] and p["reqs"]) >= 2]
+    # queries in which the order of the add-on filter's sub mix filters can matter: a mixed requirement with >= 2 sub
+    # filter keys, more eligible providers than slots, >= 3 slots
+    def _keys(r):
+        ks = set()
+        for q in r["eff"]["reqs"]:
+            if q["mx"] and q["ext"]:
+                ks.add(q["ad"])
+                ks.update(q["ext"])
+        return ks
+    subkey_q = [r for r in qs if not r["err"] and len(_keys(r)) >= 2 and r["eff"]["max"] >= 3
+                and sum(1 for t in r["tab"] if t["ok"]) > len(r["list"]) > 0]
     acc = sum(int(d.split("acc=")[1]) for r in rows if r["ev"] == "blk" and r["cfg"] >= 0 for d in r["digs"][:1])
     blocks = sum(1 for r in rows if r["ev"] == "blk" and r["cfg"] < 0)
     ctx.cov["evaluations"] = len(qs) * K * R
@@ -135,13 +151,13 @@ def run(ctx):
     ctx.cov["rule"] = ("one evaluation = one repetition of GetPairing + VerifyPairing(all providers) + EffectivePolicy on the same "
                        "context (K per process, R processes); non-trivial = configuration in which at least two policies carry "
                        "chain requirements (a union is computed); distinct by (stake table, policies)")
-    ctx.cov["c01"] = {"configs": len(cfgs), "queries": len(qs), "union_queries": len(union_q), "K": K, "R": R,
+    ctx.cov["c01"] = {"configs": len(cfgs), "queries": len(qs), "union_queries": len(union_q), "multi_key_mix_queries_with_picks": len(subkey_q), "K": K, "R": R,
                       "relay_payments_accepted": acc, "blocks_hashed": blocks}
     ctx.sample(cfgs[min(1, len(cfgs) - 1)])
     ctx.assumptions += L.ASSUMPTIONS + [
         "Go re-randomises map iteration order per range statement, so K x R repetitions sample independent orders",
         "goroutine scheduling plays no role: the chain-side code under test is sequential"]
-    if len(union_q) < ctx.pick(20, 100) or acc < 10 or blocks < 3:
+    if len(union_q) < ctx.pick(20, 100) or len(subkey_q) < ctx.pick(20, 100) or acc < 10 or blocks < 3:
         raise vlib.Infra("vacuous coverage: %s" % ctx.cov["c01"])
     if not bads:
         ctx.cov["traces_validated_against_impl"] += len(cfgs) * R
